@@ -32,6 +32,7 @@
 (* big.Float comes back with another mantissa; "long-wrap" - an integer     *)
 (* comes back with another value.  They exist so that a rejected round trip *)
 (* can be attributed (C01Why); the verdict is always taken with tol = {}.   *)
+(* "same-kinds" makes SV strict instead: no normalisation across kinds.     *)
 (*                                                                         *)
 (* Both relations are coinductive on graphs (greatest fixed point): a pair *)
 (* of nodes that is already being compared on the current path is assumed  *)
@@ -244,6 +245,9 @@ IsEmptyish(g, v) ==   \* nil, or an empty container / byte string
 FieldsAsEnts(n) == [i \in 1..Len(n.fields) |-> <<[k |-> "str", s |-> n.fields[i][1], valid |-> TRUE, u16 |-> 0], n.fields[i][2]>>]
 
 SV(gx, x, gy, y, asm, tol) ==
+    \* "same-kinds": no normalisation across kinds (nil / empty, struct / map, int / bigint, ...): for two
+    \* decodings of the same bytes into the same destination
+    IF "same-kinds" \in tol /\ (x.k # y.k \/ (x.k = "node" /\ Node(gx, x).k # Node(gy, y).k)) THEN FALSE ELSE
     IF IsEmptyish(gx, x) /\ IsEmptyish(gy, y) /\ (x.k = "nil" \/ y.k = "nil" \/ x.k = y.k) THEN TRUE ELSE
     CASE x.k = "nil" -> y.k = "nil"
       [] x.k = "bool" -> y.k = "bool" /\ y.v = x.v
@@ -350,7 +354,7 @@ C05Why(e) ==
     ELSE IF e.a.err # "none" THEN ""
     ELSE IF e.a.rest # e.b.rest THEN "final position differs"
     ELSE IF e.a.fault # "none" \/ e.b.fault # "none" THEN "wild-pointer"
-    ELSE IF SameValue(e.a.out, e.b.out, {}) /\ SameValue(e.b.out, e.a.out, {}) THEN "" ELSE "value differs"
+    ELSE IF SameValue(e.a.out, e.b.out, {"same-kinds"}) /\ SameValue(e.b.out, e.a.out, {"same-kinds"}) THEN "" ELSE "value differs"
 
 \* C04: untrusted bytes.  The harness observes crash / hang / allocation directly; the recogniser adds
 \* "a stream that is not a well-formed value must be reported through the decoder's error"
